@@ -459,3 +459,54 @@ Lemma client_actions_fanouts known ids :
 Proof.
   induction ids as [|u r IH]; simpl; [reflexivity|]. destruct (known u); simpl; rewrite IH; reflexivity.
 Qed.
+
+(* ---------- the receiving worker over time ---------- *)
+Lemma world_app st a b : world st (a ++ b) = world st a ++ world (fold_left store_step a st) b.
+Proof.
+  revert st; induction a as [|e a IH]; intros st; simpl; [reflexivity|]. rewrite IH, app_assoc. reflexivity.
+Qed.
+Lemma fanouts_app a b : fanouts (a ++ b) = fanouts a ++ fanouts b.
+Proof. unfold fanouts. apply flat_map_app. Qed.
+
+(* look-ups have no memory: asking for ids - stored or not, before or after they exist - changes nothing that is fanned out *)
+Lemma probes_irrelevant evs : forall st,
+  fanouts (world st evs) = fanouts (world st (filter (fun e => negb (is_probe e)) evs)).
+Proof.
+  induction evs as [|e r IH]; intros st; simpl; [reflexivity|].
+  destruct e as [u|u|u|u]; simpl; rewrite ?fanouts_app, ?IH; try reflexivity.
+Qed.
+
+Lemma stored_survives u mid : forall st,
+  In u st -> ~ In (Remove u) mid -> In u (fold_left store_step mid st).
+Proof.
+  induction mid as [|e r IH]; intros st Hin Hno; simpl; [exact Hin|].
+  apply IH; [|intros H; apply Hno; right; exact H].
+  destruct e as [v|v|v|v]; simpl; try exact Hin; [right; exact Hin|].
+  apply in_in_remove; [|exact Hin]. intros ->. apply Hno. left; reflexivity.
+Qed.
+
+(* an event committed before its id is announced, and not removed in between, is fanned out - whatever else
+   happened, in particular whoever asked for that id while it did not exist yet *)
+Lemma committed_then_announced_is_fanned_out st pre mid post u :
+  ~ In (Remove u) mid ->
+  In u (fanouts (world st (pre ++ Accept u :: mid ++ Announce u :: post))).
+Proof.
+  intros Hno. rewrite world_app, fanouts_app. apply in_or_app; right.
+  cbn [world store_step]. cbn [app]. rewrite world_app, fanouts_app. apply in_or_app; right.
+  cbn [world]. rewrite fanouts_app. apply in_or_app; left.
+  unfold client_actions, stored. cbn [flat_map].
+  destruct (in_dec bytes_dec u _) as [_|Hn].
+  - cbn. left; reflexivity.
+  - exfalso; apply Hn. apply stored_survives; [left; reflexivity|exact Hno].
+Qed.
+
+(* and nothing is fanned out that is not stored at the moment its id arrives *)
+Lemma fanned_out_was_announced evs : forall st u,
+  In u (fanouts (world st evs)) -> In (Announce u) evs.
+Proof.
+  induction evs as [|e r IH]; intros st u H; simpl in H; [contradiction|].
+  rewrite fanouts_app in H. apply in_app_or in H. destruct H as [H|H]; [|right; eapply IH; exact H].
+  destruct e as [v|v|v|v]; cbn in H; try contradiction.
+  unfold stored in H. destruct (in_dec bytes_dec v st); cbn in H; [|contradiction].
+  destruct H as [->|[]]. left; reflexivity.
+Qed.
